@@ -244,20 +244,6 @@ Proof.
   intros H. inversion H; subst. exists t, d. repeat split; assumption.
 Qed.
 
-Lemma dict_set_get {A} k (v : A) l : assoc k (dict_set k v l) = Some v.
-Proof.
-  induction l as [|[k' v'] l IH]; cbn; [rewrite ustr_eqb_refl; reflexivity|].
-  destruct (ustr_eqb k k') eqn:E; cbn; [rewrite ustr_eqb_refl; reflexivity|rewrite E; exact IH].
-Qed.
-Lemma dict_set_other {A} k k' (v : A) l : ustr_eqb k' k = false -> assoc k' (dict_set k v l) = assoc k' l.
-Proof.
-  intros Hn. induction l as [|[k2 v2] l IH]; cbn.
-  - rewrite Hn. reflexivity.
-  - destruct (ustr_eqb k k2) eqn:E; cbn.
-    + apply ustr_eqb_eq in E. subst. rewrite Hn. reflexivity.
-    + destruct (ustr_eqb k' k2); [reflexivity|exact IH].
-Qed.
-
 (* with an isolated environment gpg is always run with the private home, whatever the caller's
    environment contains *)
 Theorem isolated_home_wins user_env home proxy :
